@@ -505,9 +505,42 @@ func (g *Gen) genWithdraw() Op {
 			}
 		}
 	}
+	thirdParty := false
+	if gl := g.liveGrants(2); len(gl) > 0 && !underGrant && g.chance(0.15) {
+		// a third account, holding no grant itself, names a depositor whose withdraw grant belongs to somebody else (preferably the
+		// account that made the deposit on the depositor's behalf): must be refused, and must not touch the other account's grant
+		gr := pick(g.r, gl)
+		// prefer a grant whose grantee made a deposit on the granter's behalf
+		deps, _ := g.c.App.HouseKeeper.GetAllDeposits(ctx)
+		byCreator := map[[2]string]bool{} // (market, participation index) of deposits made by a grantee for its granter
+		for _, x := range gl {
+			for _, d := range deps {
+				if d.Creator == g.c.AddrOf(x.grantee) && d.DepositorAddress == g.c.AddrOf(x.granter) {
+					byCreator[[2]string{d.MarketUID, fmt.Sprint(d.ParticipationIndex)}] = true
+					gr = x
+				}
+			}
+		}
+		var cand *obtypes.OrderBookParticipation
+		for i := range parts {
+			q := &parts[i]
+			if g.c.AccID(q.ParticipantAddress) == gr.granter && !q.IsSettled {
+				if cand == nil || byCreator[[2]string{q.OrderBookUID, fmt.Sprint(q.Index)}] {
+					cand = q
+				}
+			}
+		}
+		if cand != nil {
+			b := g.user()
+			if b != gr.granter && b != gr.grantee {
+				p, owner, signer, dep, thirdParty = *cand, gr.granter, b, gr.granter, true
+				g.stats["withdraw_third_party_names_granter"]++
+			}
+		}
+	}
 	mode := int64(1)
 	amt := int64(0)
-	if g.chance(0.6) || underGrant {
+	if g.chance(0.6) || underGrant || thirdParty {
 		mode = 2
 		mx := p.CurrentRoundLiquidity.Int64()
 		if !p.CurrentRoundMaxLoss.IsNegative() {
@@ -526,7 +559,7 @@ func (g *Gen) genWithdraw() Op {
 		if (g.chance(0.3) || underGrant) && amt > 100 {
 			amt = 1 + g.r.Int63n(100) // small enough for a withdraw grant
 		}
-		if underGrant && g.chance(0.7) {
+		if (underGrant || thirdParty) && g.chance(0.7) {
 			amt = 1 + g.r.Int63n(40) // consume the grant only partly
 		}
 	}
@@ -772,6 +805,11 @@ func (g *Gen) genGrant() Op {
 	exp := int64(-1)
 	if g.chance(0.6) {
 		exp = g.c.Time + int64(g.r.Intn(60))
+	}
+	if kind == 1 && g.chance(0.4) {
+		// the same pair also gets a withdraw grant: the grantee can then deposit and withdraw for the granter, and third parties
+		// naming the granter meet a deposit whose creator holds a grant they do not have
+		g.pending = append(g.pending, Op{Kind: "GRANT", Granter: granter, Grantee: grantee, GKind: 2, Limit: bi(pick(g.r, []int64{100, 50, 101})), Exp: exp})
 	}
 	return Op{Kind: "GRANT", Granter: granter, Grantee: grantee, GKind: kind, Limit: bi(limit), Exp: exp}
 }
@@ -1132,6 +1170,44 @@ func (g *Gen) longShot() (Op, bool) {
 	return Op{Kind: "MADD", Signer: g.user(), Tk: lt(), UID: uid, Start: g.c.Time - 5, End: g.c.Time + 60000, Status: 1, Odds: odds}, true
 }
 
+// grantTriangle: a depositor D gives account A both a deposit and a withdraw grant, A deposits on D's behalf into a fresh market, then
+// a third account B (no grant) and A itself withdraw naming D.  B must be refused and A's grant must be the one that is debited.
+func (g *Gen) grantTriangle() (Op, bool) {
+	cfg := g.c.Cfg
+	minDep := cfg.House.MinDeposit.Int64()
+	fee := cfg.House.HouseParticipationFee.MulInt64(minDep).RoundInt64()
+	liq := minDep - fee
+	if liq < 2 || minDep > cfg.Balance/4 || len(g.c.Acc) < 3 || cfg.House.MaxWithdrawalCount < 2 {
+		return Op{}, false
+	}
+	d, a, b := g.user(), g.user(), g.user()
+	if d == a || d == b || a == b {
+		return Op{}, false
+	}
+	uid := g.nextMkt
+	g.nextMkt++
+	odds := []int64{uid * 10, uid*10 + 1}
+	lt := func() Ticket { return Ticket{Signer: int64(g.c.LeaderKey()), Exp: g.c.Time + 4000} }
+	ky := func(x int64) Kyc { return Kyc{Ignore: false, Approved: true, ID: x} }
+	small := func() *big.Int {
+		m := liq
+		if m > 40 {
+			m = 40
+		}
+		return bi(1 + g.r.Int63n(m))
+	}
+	seq := []Op{
+		{Kind: "GRANT", Granter: d, Grantee: a, GKind: 1, Limit: bi(minDep * 3), Exp: -1},
+		{Kind: "GRANT", Granter: d, Grantee: a, GKind: 2, Limit: bi(100), Exp: -1},
+		{Kind: "DEP", Signer: a, Tk: lt(), Mkt: uid, Amount: bi(minDep), Ky: ky(d), Depositor: d},
+		{Kind: "WDR", Signer: b, Tk: lt(), Mkt: uid, Pidx: 1, Mode: 2, Amount: small(), Ky: ky(d), Depositor: d},
+		{Kind: "WDR", Signer: a, Tk: lt(), Mkt: uid, Pidx: 1, Mode: 2, Amount: small(), Ky: ky(d), Depositor: d},
+	}
+	g.pending = append(g.pending, seq...)
+	g.stats["grant_triangle_script"]++
+	return Op{Kind: "MADD", Signer: g.user(), Tk: lt(), UID: uid, Start: g.c.Time - 5, End: g.c.Time + 60000, Status: 1, Odds: odds}, true
+}
+
 func (g *Gen) HasPending() bool { return len(g.pending) > 0 }
 
 // NextTx draws one transaction according to the profile.
@@ -1150,6 +1226,11 @@ func (g *Gen) NextTx() Op {
 	}
 	if (g.profile == "tiny" && g.chance(0.03)) || ((g.profile == "bet" || g.profile == "sub") && g.chance(0.012)) {
 		if o, ok := g.longShot(); ok {
+			return o
+		}
+	}
+	if (g.profile == "bet" || g.profile == "sub") && g.chance(0.012) {
+		if o, ok := g.grantTriangle(); ok {
 			return o
 		}
 	}
